@@ -117,6 +117,7 @@ func init() {
 		enumV3Temporal(r, P, st, decs, []map[string]string{{}, {"MS": "C", "CR": "H", "MAV": "P"}})
 		omittedTemporal(r, P, st)
 		r.Phase("score sequences", func() { scoreSequences(r, 3, 1) })
+		r.Phase("higher levels queried first", func() { topFirstSweep(r, 3, 1) })
 		r.Phase("first use in fresh processes", func() { firstUseScores(r, 3, 1) })
 		st.report(r, 3)
 		o := oracle.GetV3()
@@ -449,9 +450,12 @@ func envEffective(r *ev.Run, P props, st *enumStats, everyTemporal bool) {
 // envLattices: (b) the complete impact-side fallback lattice and (c) the complete
 // exploitability-side lattice, through the real decoder for every vector.
 func envLattices(r *ev.Run, P props, st *enumStats, dpathEvery int) {
-	// (b) impact side: ver 2 x (C,I,A) 27 x (MC,MI,MA) 64 x (CR,IR,AR) 64 x S 2 x MS 3 at 4 exploitability settings
+	// (b) impact side: ver 2 x (C,I,A) 27 x (MC,MI,MA) 64 x (CR,IR,AR) 64 x S 2 x MS 3 at 6 exploitability settings
 	expl := []oracle.V3Case{
 		{AV: 0, AC: 0, PR: 0, UI: 0}, {AV: 3, AC: 1, PR: 2, UI: 1, MAV: 1}, {AV: 1, AC: 0, PR: 1, UI: 1, MPR: 3, MUI: 1}, {AV: 2, AC: 1, PR: 2, UI: 0, MAC: 1, MAV: 4},
+		// together the settings show every single value of every exploitability-side metric, so that
+		// every complete impact-side combination meets each of them at least once
+		{AV: 0, AC: 1, PR: 1, UI: 0, MAV: 2, MAC: 2, MPR: 1, MUI: 2}, {AV: 3, AC: 0, PR: 0, UI: 1, MAV: 3, MPR: 2},
 	}
 	var n, nd int64
 	safeParallel(r, 2*27*2, func(k int) {
@@ -476,7 +480,7 @@ func envLattices(r *ev.Run, P props, st *enumStats, dpathEvery int) {
 		}
 		atomic.AddInt64(&n, ln)
 	})
-	// (c) exploitability side: AV,MAV,AC,MAC,PR,MPR,UI,MUI,S,MS complete x 2 versions at 12 impact settings
+	// (c) exploitability side: AV,MAV,AC,MAC,PR,MPR,UI,MUI,S,MS complete x 2 versions at 13 impact settings
 	imp := []oracle.V3Case{
 		{C: 0, I: 0, A: 0, CR: 1, IR: 1, AR: 1},        // cap binds
 		{C: 0, I: 0, A: 0},                             // high, cap does not bind
@@ -490,6 +494,7 @@ func envLattices(r *ev.Run, P props, st *enumStats, dpathEvery int) {
 		{C: 1, I: 1, A: 2, MC: 1, MI: 1, CR: 1, IR: 1}, // cap binds through modified
 		{C: 0, I: 2, A: 2, MC: 2, CR: 3},
 		{C: 2, I: 0, A: 0, MI: 2, MA: 3, AR: 1},
+		{C: 1, I: 0, A: 1, MI: 3, MA: 2, CR: 2, AR: 2}, // with it every single value of every impact-side metric occurs
 	}
 	safeParallel(r, 2*len(imp)*4, func(k int) {
 		ver, ii, av := k%2, (k/2)%len(imp), k/(2*len(imp))
